@@ -69,6 +69,7 @@ Clause == CASE T.op = "lp" -> LpClause [] T.op = "graph" -> GraphClause [] T.op 
 
 TInit == tid \in 1..Len(Traces) /\ done = FALSE
 Advance == /\ ~done
+           /\ Clause \in STRING       \* evaluated here, outside the Serialize override: an evaluation error (overflow) is then TLC's, not a silent FALSE
            /\ Write([tid |-> T.id, kind |-> "final", l |-> 0, nrej |-> IF Clause = "" THEN 0 ELSE 1, clause |-> Clause,
                      status |-> T.op, rule |-> T.op, flags |-> <<>>])
            /\ done' = TRUE /\ UNCHANGED tid
